@@ -9,6 +9,7 @@ import (
 	"crypto/tls"
 	"crypto/x509"
 	"errors"
+	"io"
 	"net"
 	"net/http"
 	"os"
@@ -94,6 +95,8 @@ func classify(err error) string {
 		return "handshake-timeout"
 	case errors.As(err, &rh) || strings.Contains(msg, "server gave HTTP response to HTTPS client"):
 		return "not-tls"
+	case errors.Is(err, io.EOF) || errors.Is(err, io.ErrUnexpectedEOF) || errors.Is(err, syscall.ECONNRESET):
+		return "eof"
 	case errors.Is(err, syscall.ECONNREFUSED):
 		return "dial-refused"
 	case errors.As(err, &op) && op.Op == "dial" && op.Timeout():
